@@ -24,15 +24,44 @@ def expected_partner_view(x2, shape):
     return out
 
 
+def judge(ds, i, x, y, C):
+    """-> ("unmixed" | "mixed", None) when (x, y) is sample i untouched / a convex combination whose label shows the same partner
+    and weight as the data; (None, finding) otherwise"""
+    xi = ds.getitem_x(i)
+    if y.shape != (C,) or (y < -1e-7).any() or abs(float(y.sum()) - 1) > 1e-5:
+        return None, {"what": "label vector is not non-negative with sum one", "idx": i, "label": y.tolist()}
+    if x.shape != xi.shape:
+        return None, {"what": "mixed sample does not keep the shape of sample i", "idx": i, "shape": tuple(x.shape)}
+    nz = (y > 1e-9).nonzero().flatten().tolist()
+    if nz == [i] and torch.equal(x, xi):
+        return "unmixed", None
+    lam = float(y[i])
+    others = [c for c in nz if c != i]
+    if len(others) != 1:
+        if len(others) == 0:      # partner == i: convex combination of the sample with itself
+            if not torch.allclose(x, xi, atol=1e-5):
+                return None, {"what": "label says 'unmixed' but the data changed", "idx": i}
+            return "unmixed", None
+        return None, {"what": "label is not a combination of two one-hot vectors", "idx": i, "label": y.tolist()}
+    j = others[0]
+    if abs(float(y[j]) - (1 - lam)) > 1e-5 or not (0 <= lam <= 1):
+        return None, {"what": "label weights are not lambda / 1 - lambda with lambda in [0, 1]", "idx": i, "label": y.tolist()}
+    exp = lam * xi + (1 - lam) * expected_partner_view(ds.getitem_x(j), xi.shape)
+    if not torch.allclose(x, exp, atol=1e-4):
+        return None, {"what": "data is not mixed with the partner and weight that the label vector shows", "idx": i, "partner": j, "lambda": lam}
+    return "mixed", None
+
+
 def contract(cfg, seed):
     from kappadata.wrappers.sample_wrappers.kd_mix_wrapper import KDMixWrapper
     from kappadata.wrappers.mode_wrapper import ModeWrapper
     n, shapes = cfg["n"], cfg["shapes"]
     same_shapes = len(set(shapes)) == 1
     ds = _ds(n, shapes)
+    mk = lambda sd: KDMixWrapper(_ds(n, shapes), mixup_p=cfg["p"], mixup_alpha=cfg["alpha"], seed=sd,
+                                 mixup_unify_shapes_mode=None if same_shapes else "pad_or_cut_end")
     try:
-        w = KDMixWrapper(ds, mixup_p=cfg["p"], mixup_alpha=cfg["alpha"], seed=seed,
-                         mixup_unify_shapes_mode=None if same_shapes else "pad_or_cut_end")
+        w = mk(seed)
     except (AssertionError, NotImplementedError):
         return "SKIP"
     C = max(n, 2)
@@ -43,45 +72,33 @@ def contract(cfg, seed):
             x, y = w.getitem_xclass(i)
         except NotImplementedError:
             return "SKIP"
-        xi = ds.getitem_x(i)
-        if y.shape != (C,) or (y < -1e-7).any() or abs(float(y.sum()) - 1) > 1e-5:
-            return {"what": "label vector is not non-negative with sum one", "idx": i, "label": y.tolist()}
-        if x.shape != xi.shape:
-            return {"what": "mixed sample does not keep the shape of sample i", "idx": i, "shape": tuple(x.shape)}
-        nz = (y > 1e-9).nonzero().flatten().tolist()
-        if nz == [i] and torch.equal(x, xi):
-            if cfg["p"] >= 1.0 and n > 1:
-                # probability one: every sample is mixed (a draw of lambda == 1 or partner == i is possible but then x == xi anyway)
-                pass
+        verdict, finding = judge(ds, i, x, y, C)
+        if finding is not None:
+            return finding
+        if verdict == "unmixed":
             continue
-        lam = float(y[i])
-        others = [c for c in nz if c != i]
-        if len(others) != 1:
-            if len(others) == 0:      # partner == i: convex combination of the sample with itself
-                if not torch.allclose(x, xi, atol=1e-5):
-                    return {"what": "label says 'unmixed' but the data changed", "idx": i}
-                continue
-            return {"what": "label is not a combination of two one-hot vectors", "idx": i, "label": y.tolist()}
-        j = others[0]
-        if abs(float(y[j]) - (1 - lam)) > 1e-5 or not (0 <= lam <= 1):
-            return {"what": "label weights are not lambda / 1 - lambda with lambda in [0, 1]", "idx": i, "label": y.tolist()}
-        exp = lam * xi + (1 - lam) * expected_partner_view(ds.getitem_x(j), xi.shape)
-        if not torch.allclose(x, exp, atol=1e-4):
-            return {"what": "data is not mixed with the partner and weight that the label vector shows", "idx": i, "partner": j, "lambda": lam}
         mixed += 1
         # seeded: image-only, label-only and joint requests (in any mode order) describe the same draw
-        if seed is not None:
-            for mode in ("x class", "class x", "x", "class"):
-                mw = ModeWrapper(KDMixWrapper(_ds(n, shapes), mixup_p=cfg["p"], mixup_alpha=cfg["alpha"], seed=seed,
-                                              mixup_unify_shapes_mode=None if same_shapes else "pad_or_cut_end"), mode=mode)
-                out = mw[i]
-                items = dict(zip(mode.split(" "), out if " " in mode else (out,)))
-                if "x" in items and not torch.allclose(items["x"], x, atol=1e-6):
-                    return {"what": "the image delivered for mode order '%s' is not the draw of the joint request" % mode, "idx": i}
-                if "class" in items and not torch.allclose(items["class"], y, atol=1e-6):
-                    return {"what": "the label delivered for mode order '%s' is not the draw of the joint request" % mode, "idx": i}
+        for mode in ("x class", "class x", "x", "class", "class index x"):
+            out = ModeWrapper(mk(seed), mode=mode)[i]
+            items = dict(zip(mode.split(" "), out if " " in mode else (out,)))
+            if "x" in items and not torch.allclose(items["x"], x, atol=1e-6):
+                return {"what": "the image delivered for mode order '%s' is not the draw of the joint request" % mode, "idx": i}
+            if "class" in items and not torch.allclose(items["class"], y, atol=1e-6):
+                return {"what": "the label delivered for mode order '%s' is not the draw of the joint request" % mode, "idx": i}
     if cfg["p"] >= 1.0 and n >= 3 and mixed == 0:
         return {"what": "a probability-one configuration left every sample unmixed", "n": n}
+    # unseeded: whatever order image and label are requested in, one request delivers one draw (same partner, same weight)
+    for mode in ("x class", "class x", "class index x", "index x class"):
+        mw = ModeWrapper(mk(None), mode=mode)
+        for i in range(n):
+            perturb(100 + i)
+            items = dict(zip(mode.split(" "), mw[i]))
+            verdict, finding = judge(ds, i, items["x"], items["class"], C)
+            if finding is not None:
+                finding["mode"] = mode
+                finding["what"] = f"unseeded wrapper, mode '{mode}': " + finding["what"]
+                return finding
     return None
 
 
@@ -94,7 +111,9 @@ def configs():
 
 
 def search(seed, thorough=False):
+    """-> (first failing case or None, cases evaluated, distinct non-trivial cases); the whole grid is evaluated either way"""
     n = nt = 0
+    first = None
     for cfg in configs():
         for s in range(seed, seed + (20 if thorough else 4)):
             n += 1
@@ -105,7 +124,7 @@ def search(seed, thorough=False):
             if r == "SKIP":
                 continue
             nt += 1
-            if r is not None:
+            if r is not None and first is None:
                 r["input"] = dict(cfg, seed=s)
-                return r, n, nt
-    return None, n, nt
+                first = r
+    return first, n, nt
